@@ -126,6 +126,13 @@ def _key(t):
 
 
 def app(op, *args):
+    if op in ('index', 'upd') and len(args) >= 2 and args[1][0] == 'app' and args[1][1] == 'array' and len(args[1][2]) == 1:
+        # x[[k]] on a one-dimensional array is x[k]: one spelling
+        args = (args[0], args[1][2][0]) + tuple(args[2:])
+    if op == 'len' and len(args) == 1 and args[0][0] == 'app' and args[0][1] == 'index' and len(args[0][2]) == 2:
+        r = args[0][2][1]
+        if r[0] == 'app' and r[1] == 'range' and len(r[2]) == 2:
+            return sub(r[2][1], r[2][0])        # x[a..b] has b - a elements (or the slicing panicked)
     return mk('app', op, tuple(args))
 
 
